@@ -303,6 +303,15 @@ def run(ctx):
                     mm = re.match(r"^Eq\(get_u8\(\w+\), (\d+)\)$", dd)
                     if mm:
                         rsign[(int(mm.group(1)), l == "true")] = d[len("Sign::"):-2]
+                    elif re.match(r"^get_u8\(\w+\)$", dd):
+                        # `match input.get_u8() { K => .., _ => .. }`: an integer switch (a two-way switch on 0 is labelled false/true)
+                        if l in ("false", "true"):
+                            rsign[(0, l == "false")] = d[len("Sign::"):-2]
+                        elif l.isdigit():
+                            rsign[(int(l), True)] = d[len("Sign::"):-2]
+                        elif l == "otherwise":
+                            for k_ in (0, 1):
+                                rsign.setdefault((k_, False), d[len("Sign::"):-2])
         r.check(len(wsign) == 2 and wsign.get("Minus") != wsign.get("other"), "writer/write_big_int/sign-byte-table", where(wb), "sign byte: Minus -> %s, otherwise -> %s" % (wsign.get("Minus"), wsign.get("other")), "sign byte table of the writer: %s" % wsign)
         neg = rsign.get((wsign.get("Minus"), True))
         pos = rsign.get((wsign.get("Minus"), False))
@@ -336,6 +345,14 @@ def run(ctx):
             if c.name in ("write_map_len", "write_array_len"):
                 lab = [l for d, l, _ in dom_guards(ch, c.block) if "RecordBodyKind::MapLike" in d]
                 km[c.name] = lab[-1] if lab else None
+                # `match kind { MapLike => .., ArrayLike | Mixed => .. }` states the same table by variant
+                for d, l, _ in dom_guards(ch, c.block):
+                    if re.match(r"^disc\((\(\*)?kind\)?\)$", d) or (d.startswith("disc(") and "kind" in d and lab == []):
+                        ks = set(l.split("|"))
+                        if ks == {"MapLike"}:
+                            km[c.name] = "true"
+                        elif "MapLike" not in ks and (ks <= {"ArrayLike", "Mixed", "otherwise"}):
+                            km[c.name] = "false"
         r.check(km == {"write_map_len": "true", "write_array_len": "false"}, "writer/complete_header/kind->header", where(ch), "MapLike bodies get a map header, every other kind an array header", "body headers by kind: %s" % km)
         ws = ctx.saw(mp.fn(name="write_slot", self_adt="writer::MsgPackBodyInterpreter"))
         al = [c for c in ws.calls if c.name == "write_array_len"]
@@ -354,7 +371,7 @@ def run(ctx):
                 for d in ds:
                     mm = re.match(r"^Marker::(Map\d+)\(\)$", d)
                     if mm:
-                        w = getters_of(rb, [x for x in rb.calls if x.block < c.block and x.name in ("get_u16", "get_u32") and rb.dominates(x.block, c.block)])
+                        w = getters_of(rb, [x for x in rb.calls if x.name in ("get_u16", "get_u32") and x.block != c.block and rb.dominates(x.block, c.block)])
                         eqs[mm.group(1)] = w
         r.check(set(eqs) == {"Map16", "Map32"} and "get_u16" in eqs.get("Map16", ()) and "get_u32" in eqs.get("Map32", ()) and "get_u32" not in eqs.get("Map16", ()), "reader/read_record_body/map-vs-array-by-marker", where(rb),
                 "a 16/32-bit body header is a map body exactly when the marker is Map16/Map32", "map/array distinction in the body: %s" % eqs)
